@@ -7,30 +7,47 @@ From YP Require Import Base.Str Engine.Resolve.
 
 (* ------------------------------------------------------------------ dictionaries *)
 
-Lemma ctx_get_set_same c k v : ctx_get (ctx_set c k v) k = Some v.
+Lemma aget_aset {A} (c : list (str * A)) k v k2 :
+  aget (aset c k v) k2 = if str_eqb k2 k then Some v else aget c k2.
 Proof.
   induction c as [|[k' v'] c IH]; simpl.
-  - rewrite str_eqb_refl. reflexivity.
-  - destruct (str_eqb k k') eqn:E; simpl; rewrite E; auto.
+  - reflexivity.
+  - destruct (str_eqb_spec k k') as [->|Hne]; simpl.
+    + destruct (str_eqb k2 k'); reflexivity.
+    + rewrite IH. destruct (str_eqb_spec k2 k') as [->|Hne2]; [|reflexivity].
+      destruct (str_eqb_spec k' k) as [->|]; [congruence | reflexivity].
 Qed.
 
-Lemma ctx_get_set_other c k v k2 : k2 <> k -> ctx_get (ctx_set c k v) k2 = ctx_get c k2.
+Lemma aget_adel {A} (c : list (str * A)) k k2 :
+  aget (adel c k) k2 = if str_eqb k2 k then None else aget c k2.
 Proof.
-  intros Hne. induction c as [|[k' v'] c IH]; simpl.
-  - destruct (str_eqb k2 k) eqn:E; [apply str_eqb_eq in E; congruence | reflexivity].
-  - destruct (str_eqb k k') eqn:E; simpl.
-    + apply str_eqb_eq in E. subst k'.
-      destruct (str_eqb k2 k) eqn:E2; [apply str_eqb_eq in E2; congruence | reflexivity].
-    + rewrite IH. reflexivity.
+  induction c as [|[k' v'] c IH]; simpl.
+  - destruct (str_eqb k2 k); reflexivity.
+  - destruct (str_eqb_spec k k') as [->|Hne]; simpl.
+    + rewrite IH. destruct (str_eqb k2 k'); reflexivity.
+    + rewrite IH. destruct (str_eqb_spec k2 k') as [->|Hne2]; [|reflexivity].
+      destruct (str_eqb_spec k' k) as [->|]; [congruence | reflexivity].
 Qed.
+
+Lemma aget_in {A} (c : list (str * A)) k v : aget c k = Some v -> In k (map fst c).
+Proof.
+  induction c as [|[k' v'] c IH]; simpl; [discriminate|].
+  destruct (str_eqb_spec k k') as [->|Hne]; [left; reflexivity | right; auto].
+Qed.
+
+Lemma ctx_val_set c k v k2 :
+  ctx_val (ctx_set c k v) k2 = if str_eqb k2 k then Some v else ctx_val c k2.
+Proof. apply aget_aset. Qed.
 
 Lemma ctx_get_set c k v k2 :
-  ctx_get (ctx_set c k v) k2 = if str_eqb k2 k then Some v else ctx_get c k2.
-Proof.
-  destruct (str_eqb k2 k) eqn:E.
-  - apply str_eqb_eq in E. subst. apply ctx_get_set_same.
-  - apply ctx_get_set_other. apply str_eqb_neq. exact E.
-Qed.
+  ctx_get (ctx_set c k v) k2 = if str_eqb k2 k then Some (members v) else ctx_get c k2.
+Proof. unfold ctx_get. rewrite ctx_val_set. destruct (str_eqb k2 k); reflexivity. Qed.
+
+Lemma ctx_get_set_same c k v : ctx_get (ctx_set c k v) k = Some (members v).
+Proof. rewrite ctx_get_set, str_eqb_refl. reflexivity. Qed.
+
+Lemma ctx_get_set_other c k v k2 : k2 <> k -> ctx_get (ctx_set c k v) k2 = ctx_get c k2.
+Proof. intros Hne. rewrite ctx_get_set. apply str_eqb_neq in Hne. rewrite Hne. reflexivity. Qed.
 
 (* ------------------------------------------------------------------ big-step reading *)
 
@@ -265,8 +282,10 @@ Proof. intros H. unfold resolve. rewrite H. reflexivity. Qed.
 Lemma exec_stmts_none_of_fail ss : forall nc, In SFail ss -> exec_stmts ss nc = None.
 Proof.
   induction ss as [|st ss IH]; intros nc Hin; [destruct Hin|].
-  destruct st as [k d|]; simpl; [|reflexivity].
-  apply IH. destruct Hin as [H|H]; [discriminate | exact H].
+  destruct Hin as [H|H]; [subst st; reflexivity|].
+  destruct st as [k d|k|k|k|]; simpl; try (apply IH; exact H); try reflexivity.
+  - destruct (aget nc k); [apply IH; exact H | reflexivity].
+  - destruct (aget nc k); [apply IH; exact H | reflexivity].
 Qed.
 
 (* a load that raises (compile error, or any statement raising while the script runs,
@@ -279,52 +298,153 @@ Proof.
   - destruct (s_broken sc); [reflexivity|]. rewrite exec_stmts_none_of_fail by exact H. reflexivity.
 Qed.
 
-Theorem load_ok_iff c sc ow :
-  (exists c', load c sc ow = Some c') <-> (s_broken sc = false /\ ~ In SFail (s_stmts sc)).
-Proof.
-  split.
-  - intros [c' H]. destruct (s_broken sc) eqn:Eb.
-    + unfold load in H. rewrite Eb in H. discriminate.
-    + split; [reflexivity|]. intros Hin.
-      rewrite (load_fail_atomic c sc ow (or_intror Hin)) in H. discriminate.
-  - intros [Hb Hnf]. unfold load. rewrite Hb.
-    assert (forall ss nc, ~ In SFail ss -> exists nc', exec_stmts ss nc = Some nc') as Hex.
-    { induction ss as [|st ss IH]; intros nc Hn; simpl; [eauto|].
-      destruct st as [k d|]; [apply IH; intros Hi; apply Hn; right; exact Hi|].
-      exfalso. apply Hn. left. reflexivity. }
-    destruct (Hex (s_stmts sc) c Hnf) as [nc' ->]. eauto.
-Qed.
-
-(* the last definition a script gives to key k *)
-Fixpoint last_def (ss : list stmt) (k : str) : option def :=
+(* does the script run to its end?  It depends on the context only through WHICH keys are
+   bound (del / self-assignment of an unbound name raise NameError) *)
+Fixpoint exec_ok (ss : list stmt) (pres : str -> bool) : bool :=
   match ss with
-  | [] => None
-  | SDef k' d :: r => match last_def r k with Some d' => Some d' | None => if str_eqb k k' then Some d else None end
-  | SFail :: r => last_def r k
+  | [] => true
+  | SDef k _ :: r | SNone k :: r => exec_ok r (fun x => str_eqb x k || pres x)
+  | SDel k :: r => pres k && exec_ok r (fun x => negb (str_eqb x k) && pres x)
+  | SSelf k :: r => pres k && exec_ok r pres
+  | SFail :: _ => false
   end.
 
-Lemma last_def_none_iff ss k : last_def ss k = None <-> ~ In k (bound_keys ss).
+Lemma exec_ok_ext ss : forall p1 p2, (forall x, p1 x = p2 x) -> exec_ok ss p1 = exec_ok ss p2.
 Proof.
-  induction ss as [|st ss IH]; simpl; [tauto|].
-  destruct st as [k' d|]; simpl; [|exact IH].
-  destruct (last_def ss k) eqn:El.
-  - split; [discriminate|]. intros Hn. exfalso. apply Hn. right.
-    destruct (in_dec (list_eq_dec N.eq_dec) k (bound_keys ss)) as [Hi|Hi]; [exact Hi|].
-    apply IH in Hi. discriminate.
-  - destruct (str_eqb_spec k k') as [->|Hne].
-    + split; [discriminate|]. intros Hn. exfalso. apply Hn. left. reflexivity.
-    + split; [|reflexivity]. intros _ [H|H]; [congruence|]. apply IH in H; [exact H|reflexivity].
+  induction ss as [|st ss IH]; intros p1 p2 H; [reflexivity|].
+  destruct st as [k d|k|k|k|]; simpl; try reflexivity.
+  - apply IH. intros x. rewrite H. reflexivity.
+  - apply IH. intros x. rewrite H. reflexivity.
+  - rewrite H. f_equal. apply IH. intros x. rewrite H. reflexivity.
+  - rewrite H. f_equal. apply IH. exact H.
 Qed.
 
+Definition bound_in {A} (c : list (str * A)) (k : str) : bool :=
+  match aget c k with Some _ => true | None => false end.
+
+Lemma exec_stmts_ok ss : forall nc,
+  (exists nc', exec_stmts ss nc = Some nc') <-> exec_ok ss (bound_in nc) = true.
+Proof.
+  induction ss as [|st ss IH]; intros nc; simpl.
+  - split; [reflexivity | eauto].
+  - destruct st as [k d|k|k|k|].
+    + rewrite IH. erewrite exec_ok_ext; [reflexivity|]. intros x. unfold bound_in.
+      rewrite aget_aset. destruct (str_eqb x k); reflexivity.
+    + rewrite IH. erewrite exec_ok_ext; [reflexivity|]. intros x. unfold bound_in.
+      rewrite aget_aset. destruct (str_eqb x k); reflexivity.
+    + unfold bound_in at 1. destruct (aget nc k) eqn:E; simpl.
+      * rewrite IH. erewrite exec_ok_ext; [reflexivity|]. intros x. unfold bound_in.
+        rewrite aget_adel. destruct (str_eqb x k); reflexivity.
+      * split; [intros [? H]; discriminate | discriminate].
+    + unfold bound_in at 1. destruct (aget nc k) eqn:E; simpl.
+      * apply IH.
+      * split; [intros [? H]; discriminate | discriminate].
+    + split; [intros [? H]; discriminate | discriminate].
+Qed.
+
+Lemma aget_copy c k : aget (copy_ctx c) k = match ctx_val c k with Some _ => Some NOld | None => None end.
+Proof.
+  unfold copy_ctx, ctx_val. induction c as [|[k' v'] c IH]; simpl; [reflexivity|].
+  destruct (str_eqb k k'); [reflexivity | exact IH].
+Qed.
+
+Lemma bound_in_copy c k : bound_in (copy_ctx c) k = bound_in c k.
+Proof. unfold bound_in. rewrite aget_copy. unfold ctx_val. destruct (aget c k); reflexivity. Qed.
+
+(* when does a load return?  exactly when the text compiles and every statement runs *)
+Theorem load_ok_iff c sc ow :
+  (exists c', load c sc ow = Some c') <-> (s_broken sc = false /\ exec_ok (s_stmts sc) (bound_in c) = true).
+Proof.
+  unfold load. destruct (s_broken sc).
+  - split; [intros [? H]; discriminate | intros [H _]; discriminate].
+  - rewrite (exec_ok_ext _ _ _ (fun x => eq_sym (bound_in_copy c x))), <- exec_stmts_ok.
+    split.
+    + intros [c' H]. split; [reflexivity|]. destruct (exec_stmts (s_stmts sc) (copy_ctx c)); [eauto | discriminate].
+    + intros [_ [nc' ->]]. eauto.
+Qed.
+
+Lemma exec_ok_no_fail ss pres : exec_ok ss pres = true -> ~ In SFail ss.
+Proof.
+  revert pres. induction ss as [|st ss IH]; intros pres H Hin; [exact Hin|].
+  destruct Hin as [->|Hin]; [discriminate|].
+  destruct st as [k d|k|k|k|]; simpl in H; try discriminate.
+  - exact (IH _ H Hin).
+  - exact (IH _ H Hin).
+  - apply andb_true_iff in H. destruct H as [_ H]. exact (IH _ H Hin).
+  - apply andb_true_iff in H. destruct H as [_ H]. exact (IH _ H Hin).
+Qed.
+
+(* scripts of definitions and raising statements only (what the compiler emits, plus failures) *)
+Definition plain_stmt (st : stmt) : bool :=
+  match st with SDef _ d => match d_const d with None => true | Some _ => false end | SFail => true | _ => false end.
+
+Definition is_fail (st : stmt) : bool := match st with SFail => true | _ => false end.
+
+Lemma exec_ok_plain ss : forallb plain_stmt ss = true -> forall pres,
+  exec_ok ss pres = negb (existsb is_fail ss).
+Proof.
+  induction ss as [|st ss IH]; intros Hp pres; [reflexivity|].
+  simpl in Hp. apply andb_true_iff in Hp. destruct Hp as [H1 H2].
+  destruct st as [k d|k|k|k|]; simpl in *; try discriminate; [apply IH; exact H2 | reflexivity].
+Qed.
+
+(* the last thing a script does to key k: None = nothing (not mentioned, or only `k = k`),
+   Some None = deleted from the copy, Some (Some v) = bound to the new value v *)
+Definition stmt_eff (st : stmt) (k : str) : option (option cval) :=
+  match st with
+  | SDef k' d => if str_eqb k k' then Some (Some (VObj d)) else None
+  | SNone k' => if str_eqb k k' then Some (Some VNone) else None
+  | SDel k' => if str_eqb k k' then Some None else None
+  | SSelf _ | SFail => None
+  end.
+
+Fixpoint last_eff (ss : list stmt) (k : str) : option (option cval) :=
+  match ss with
+  | [] => None
+  | st :: r => match last_eff r k with Some e => Some e | None => stmt_eff st k end
+  end.
+
+(* the (last) object a script binds k to *)
+Definition last_def (ss : list stmt) (k : str) : option def :=
+  match last_eff ss k with Some (Some (VObj d)) => Some d | _ => None end.
+
+Lemma last_eff_none ss k : ~ In k (bound_keys ss) -> last_eff ss k = None.
+Proof.
+  induction ss as [|st ss IH]; intros Hn; [reflexivity|].
+  simpl. rewrite IH.
+  - destruct st as [k' d|k'|k'|k'|]; simpl; try reflexivity;
+      (destruct (str_eqb_spec k k') as [->|Hne]; [|reflexivity]; exfalso; apply Hn; simpl; left; reflexivity).
+  - intros Hi. apply Hn. unfold bound_keys in *. simpl. apply in_or_app. right. exact Hi.
+Qed.
+
+Lemma last_def_none ss k : ~ In k (bound_keys ss) -> last_def ss k = None.
+Proof. intros H. unfold last_def. rewrite last_eff_none by exact H. reflexivity. Qed.
+
+Lemma last_def_some_in ss k d : last_def ss k = Some d -> In k (bound_keys ss).
+Proof.
+  intros H. destruct (in_dec (list_eq_dec N.eq_dec) k (bound_keys ss)) as [Hi|Hi]; [exact Hi|].
+  rewrite last_def_none in H by exact Hi. discriminate.
+Qed.
+
+Definition apply_eff (e : option (option cval)) (cur : option nval) : option nval :=
+  match e with None => cur | Some None => None | Some (Some v) => Some (NNew v) end.
+
 Lemma exec_stmts_get ss : forall nc nc' k,
-  exec_stmts ss nc = Some nc' ->
-  ctx_get nc' k = match last_def ss k with Some d => Some [d] | None => ctx_get nc k end.
+  exec_stmts ss nc = Some nc' -> aget nc' k = apply_eff (last_eff ss k) (aget nc k).
 Proof.
   induction ss as [|st ss IH]; intros nc nc' k H; simpl in *.
   - inversion H. reflexivity.
-  - destruct st as [k' d|]; [|discriminate].
-    rewrite (IH _ _ k H). destruct (last_def ss k); [reflexivity|].
-    rewrite ctx_get_set. destruct (str_eqb k k'); reflexivity.
+  - destruct st as [k' d|k'|k'|k'|]; simpl.
+    + rewrite (IH _ _ k H). destruct (last_eff ss k) as [e|]; [reflexivity|]. simpl.
+      rewrite aget_aset. destruct (str_eqb k k'); reflexivity.
+    + rewrite (IH _ _ k H). destruct (last_eff ss k) as [e|]; [reflexivity|]. simpl.
+      rewrite aget_aset. destruct (str_eqb k k'); reflexivity.
+    + destruct (aget nc k') eqn:E; [|discriminate].
+      rewrite (IH _ _ k H). destruct (last_eff ss k) as [e|]; [reflexivity|]. simpl.
+      rewrite aget_adel. destruct (str_eqb k k'); reflexivity.
+    + destruct (aget nc k') eqn:E; [|discriminate].
+      rewrite (IH _ _ k H). destruct (last_eff ss k) as [e|]; reflexivity.
+    + discriminate.
 Qed.
 
 Lemma dedup_in ks k : In k (dedup ks) <-> In k ks.
@@ -345,77 +465,125 @@ Proof.
   apply existsb_exists. exists x. split; [exact Hin | apply str_eqb_refl].
 Qed.
 
-(* merge touches exactly the listed keys *)
-Lemma merge_get keys : forall nc ow c k, NoDup keys ->
-  ctx_get (merge keys nc ow c) k =
-  if existsb (str_eqb k) keys
-  then match ctx_get nc k with
-       | None => ctx_get c k
-       | Some v => if ow then Some v
-                   else Some (match ctx_get c k with Some old => old ++ v | None => v end)
-       end
-  else ctx_get c k.
+Lemma merge_key_other nc ow c k0 k : k <> k0 -> ctx_val (merge_key nc ow c k0) k = ctx_val c k.
+Proof.
+  intros Hne. unfold merge_key. destruct (aget nc k0) as [[|v]|]; try reflexivity.
+  destruct (same_value (ctx_val c k0) v); [reflexivity|].
+  apply str_eqb_neq in Hne. destruct ow; rewrite ctx_val_set, Hne; reflexivity.
+Qed.
+
+Lemma merge_key_nonew nc ow c k : (forall v, aget nc k <> Some (NNew v)) -> merge_key nc ow c k = c.
+Proof.
+  unfold merge_key. destruct (aget nc k) as [[|v]|]; try reflexivity.
+  intros H; exfalso; exact (H v eq_refl).
+Qed.
+
+(* the rounds of the merge are independent: the outcome for key k is that of its own round *)
+Lemma merge_val keys : forall nc ow c k, NoDup keys ->
+  ctx_val (merge keys nc ow c) k =
+  if existsb (str_eqb k) keys then ctx_val (merge_key nc ow c k) k else ctx_val c k.
 Proof.
   induction keys as [|k0 keys IH]; intros nc ow c k Hnd; simpl; [reflexivity|].
   inversion Hnd as [|? ? Hnotin Hnd']; subst.
   rewrite IH by exact Hnd'.
   destruct (str_eqb_spec k k0) as [->|Hne]; simpl.
-  - assert (existsb (str_eqb k0) keys = false) as ->.
-    { destruct (existsb (str_eqb k0) keys) eqn:E; [|reflexivity].
-      apply existsb_exists in E. destruct E as [y [Hy Hxy]]. apply str_eqb_eq in Hxy. subst. contradiction. }
-    destruct (ctx_get nc k0) as [v|]; [|reflexivity].
-    destruct ow; rewrite ctx_get_set_same; reflexivity.
-  - destruct (ctx_get nc k0) as [v0|]; [|reflexivity].
-    assert (forall v, ctx_get (ctx_set c k0 v) k = ctx_get c k) as Hs
-      by (intros; apply ctx_get_set_other; exact Hne).
-    destruct ow; rewrite Hs; reflexivity.
+  - assert (existsb (str_eqb k0) keys = false) as ->; [|reflexivity].
+    destruct (existsb (str_eqb k0) keys) eqn:E; [|reflexivity].
+    apply existsb_exists in E. destruct E as [y [Hy Hxy]]. apply str_eqb_eq in Hxy. subst. contradiction.
+  - destruct (existsb (str_eqb k) keys).
+    + unfold merge_key at 1 3. rewrite !(merge_key_other nc ow c k0 k Hne).
+      assert (Hom : old_members (merge_key nc ow c k0) k = old_members c k).
+      { unfold old_members, ctx_get. rewrite (merge_key_other nc ow c k0 k Hne). reflexivity. }
+      rewrite Hom.
+      destruct (aget nc k) as [[|v]|]; try (apply merge_key_other; exact Hne).
+      destruct (same_value (ctx_val c k) v); [apply merge_key_other; exact Hne|].
+      destruct ow; rewrite !ctx_val_set, str_eqb_refl; reflexivity.
+    + apply merge_key_other. exact Hne.
 Qed.
 
-(* the complete description of a successful load *)
-Theorem load_get c sc ow c' k :
+(* THE description of a load that returns, for every key k, at the level of what the key is bound to *)
+Theorem load_val c sc ow c' k :
   load c sc ow = Some c' ->
-  ctx_get c' k =
-  match last_def (s_stmts sc) k with
-  | None => ctx_get c k                                   (* not mentioned: unaffected *)
-  | Some d => if ow then Some [d]                         (* overwrite: exactly the new one *)
-              else Some (match ctx_get c k with Some old => old ++ [d] | None => [d] end)
+  ctx_val c' k =
+  match last_eff (s_stmts sc) k with
+  | Some (Some v) =>                                        (* bound by the script to the new value v *)
+      if same_value (ctx_val c k) v then ctx_val c k        (* `!=` is False: skipped *)
+      else if ow then Some v                                (* overwrite: exactly the new one *)
+      else Some (VChain (old_members c k ++ members v))     (* combine: old members, then the new *)
+  | _ => ctx_val c k                                        (* not mentioned, `k = k`, or deleted in the copy: unaffected *)
   end.
 Proof.
   unfold load. destruct (s_broken sc); [discriminate|].
-  destruct (exec_stmts (s_stmts sc) c) as [nc|] eqn:Ex; [|discriminate].
+  destruct (exec_stmts (s_stmts sc) (copy_ctx c)) as [nc|] eqn:Ex; [|discriminate].
   intros H. inversion H; subst c'; clear H.
-  rewrite merge_get by apply dedup_nodup.
-  rewrite (exec_stmts_get _ _ _ k Ex).
-  destruct (existsb (str_eqb k) (dedup (bound_keys (s_stmts sc)))) eqn:E.
-  - destruct (last_def (s_stmts sc) k) as [d|] eqn:El; [reflexivity|].
-    destruct (ctx_get c k) eqn:Ec; [|reflexivity].
-    exfalso. apply last_def_none_iff in El. apply El.
-    apply existsb_exists in E. destruct E as [y [Hy Hxy]]. apply str_eqb_eq in Hxy. subst y.
-    apply dedup_in. exact Hy.
-  - destruct (last_def (s_stmts sc) k) as [d|] eqn:El; [|reflexivity].
-    exfalso. assert (In k (bound_keys (s_stmts sc))) as Hin.
-    { destruct (in_dec (list_eq_dec N.eq_dec) k (bound_keys (s_stmts sc))) as [Hi|Hi]; [exact Hi|].
-      apply last_def_none_iff in Hi. congruence. }
-    apply dedup_in in Hin.
-    assert (existsb (str_eqb k) (dedup (bound_keys (s_stmts sc))) = true) as Ht; [|congruence].
-    apply existsb_exists. exists k. split; [exact Hin | apply str_eqb_refl].
+  rewrite merge_val by apply dedup_nodup.
+  pose proof (exec_stmts_get _ _ _ k Ex) as Hg. rewrite aget_copy in Hg.
+  assert (Hmk : ctx_val (merge_key nc ow c k) k =
+                match last_eff (s_stmts sc) k with
+                | Some (Some v) => if same_value (ctx_val c k) v then ctx_val c k
+                                   else if ow then Some v else Some (VChain (old_members c k ++ members v))
+                | _ => ctx_val c k end).
+  { destruct (last_eff (s_stmts sc) k) as [[v|]|]; simpl in Hg.
+    - unfold merge_key. rewrite Hg. destruct (same_value (ctx_val c k) v); [reflexivity|].
+      destruct ow; rewrite ctx_val_set, str_eqb_refl; reflexivity.
+    - rewrite merge_key_nonew; [reflexivity|]. intros v. rewrite Hg. discriminate.
+    - rewrite merge_key_nonew; [reflexivity|]. intros v. rewrite Hg. destruct (ctx_val c k); discriminate. }
+  destruct (existsb (str_eqb k) (dedup (map fst nc))) eqn:E; [exact Hmk|].
+  (* k is not a key of the copy: then the script left nothing under k *)
+  destruct (last_eff (s_stmts sc) k) as [[v|]|] eqn:El; try reflexivity.
+  exfalso. simpl in Hg. apply aget_in in Hg. apply dedup_in in Hg.
+  assert (existsb (str_eqb k) (dedup (map fst nc)) = true) as Ht; [|congruence].
+  apply existsb_exists. exists k. split; [exact Hg | apply str_eqb_refl].
+Qed.
+
+(* what a call finds after the load: for a script-made FUNCTION d (the case of the property text) *)
+Theorem load_get c sc ow c' k :
+  load c sc ow = Some c' ->
+  ctx_get c' k =
+  match last_eff (s_stmts sc) k with
+  | Some (Some v) =>
+      if same_value (ctx_val c k) v then ctx_get c k
+      else if ow then Some (members v)
+      else Some (old_members c k ++ members v)
+  | _ => ctx_get c k
+  end.
+Proof.
+  intros H. unfold ctx_get at 1. rewrite (load_val _ _ _ _ k H).
+  destruct (last_eff (s_stmts sc) k) as [[v|]|]; try reflexivity.
+  destruct (same_value (ctx_val c k) v); [reflexivity|]. destruct ow; reflexivity.
+Qed.
+
+Lemma same_value_fun old d : d_const d = None -> same_value old (VObj d) = false.
+Proof. intros H. simpl. rewrite H. reflexivity. Qed.
+
+Theorem load_get_def c sc ow c' k d :
+  load c sc ow = Some c' -> last_def (s_stmts sc) k = Some d -> d_const d = None ->
+  ctx_get c' k = if ow then Some [d] else Some (old_members c k ++ [d]).
+Proof.
+  intros H Hl Hd. rewrite (load_get _ _ _ _ k H). unfold last_def in Hl.
+  destruct (last_eff (s_stmts sc) k) as [[[|d'|]|]|]; try discriminate.
+  inversion Hl; subst d'. rewrite same_value_fun by exact Hd. reflexivity.
 Qed.
 
 Theorem load_overwrite_exact c sc c' k d :
-  load c sc true = Some c' -> last_def (s_stmts sc) k = Some d -> ctx_get c' k = Some [d].
-Proof. intros H Hl. rewrite (load_get _ _ _ _ k H), Hl. reflexivity. Qed.
+  load c sc true = Some c' -> last_def (s_stmts sc) k = Some d -> d_const d = None -> ctx_get c' k = Some [d].
+Proof. intros H Hl Hd. rewrite (load_get_def _ _ _ _ k d H Hl Hd). reflexivity. Qed.
 
 Theorem load_frame c sc ow c' k :
-  load c sc ow = Some c' -> ~ In k (bound_keys (s_stmts sc)) -> ctx_get c' k = ctx_get c k.
+  load c sc ow = Some c' -> ~ In k (bound_keys (s_stmts sc)) -> ctx_val c' k = ctx_val c k.
 Proof.
-  intros H Hn. rewrite (load_get _ _ _ _ k H).
-  apply last_def_none_iff in Hn. rewrite Hn. reflexivity.
+  intros H Hn. rewrite (load_val _ _ _ _ k H). rewrite last_eff_none by exact Hn. reflexivity.
 Qed.
 
+(* deleting a key in the script, or assigning it to itself, does nothing to the engine *)
+Theorem load_del_unaffected c sc ow c' k :
+  load c sc ow = Some c' -> last_eff (s_stmts sc) k = Some None -> ctx_val c' k = ctx_val c k.
+Proof. intros H Hl. rewrite (load_val _ _ _ _ k H), Hl. reflexivity. Qed.
+
 Theorem load_combine_appends c sc c' k d :
-  load c sc false = Some c' -> last_def (s_stmts sc) k = Some d ->
-  ctx_get c' k = Some (match ctx_get c k with Some old => old ++ [d] | None => [d] end).
-Proof. intros H Hl. rewrite (load_get _ _ _ _ k H), Hl. reflexivity. Qed.
+  load c sc false = Some c' -> last_def (s_stmts sc) k = Some d -> d_const d = None ->
+  ctx_get c' k = Some (old_members c k ++ [d]).
+Proof. intros H Hl Hd. rewrite (load_get_def _ _ _ _ k d H Hl Hd). reflexivity. Qed.
 
 (* any number of combining loads: the chain of k is the old chain followed by the scripts'
    definitions of k in load order *)
@@ -427,16 +595,35 @@ Fixpoint load_all (c : ctx) (scs : list script) : option ctx :=
 
 Definition chain_of (c : ctx) (k : str) : list def := match ctx_get c k with Some l => l | None => [] end.
 
+Definition plain_script (sc : script) : bool := forallb plain_stmt (s_stmts sc).
+
+Lemma plain_last_eff ss k : forallb plain_stmt ss = true ->
+  last_eff ss k = match last_def ss k with Some d => Some (Some (VObj d)) | None => None end /\
+  (forall d, last_def ss k = Some d -> d_const d = None).
+Proof.
+  induction ss as [|st ss IH]; intros Hp; [split; [reflexivity | discriminate]|].
+  simpl in Hp. apply andb_true_iff in Hp. destruct Hp as [H1 H2]. destruct (IH H2) as [IHa IHb].
+  unfold last_def in *. simpl. destruct (last_eff ss k) as [e|] eqn:El.
+  - split; [exact IHa | exact IHb].
+  - destruct st as [k' d|k'|k'|k'|]; simpl in *; try discriminate.
+    + destruct (str_eqb k k'); [|split; [reflexivity | discriminate]].
+      split; [reflexivity|]. intros d0 Hd0. inversion Hd0; subst. destruct (d_const d0); [discriminate | reflexivity].
+    + split; [reflexivity | discriminate].
+Qed.
+
 Theorem load_chain_order scs : forall c c' k,
+  forallb plain_script scs = true ->
   load_all c scs = Some c' ->
   chain_of c' k = chain_of c k ++ flat_map (fun sc => match last_def (s_stmts sc) k with Some d => [d] | None => [] end) scs.
 Proof.
-  induction scs as [|sc scs IH]; intros c c' k H; simpl in *.
+  induction scs as [|sc scs IH]; intros c c' k Hp H; simpl in *.
   - inversion H. rewrite app_nil_r. reflexivity.
-  - destruct (load c sc false) as [c1|] eqn:El; [|discriminate].
-    rewrite (IH _ _ k H). unfold chain_of at 1. rewrite (load_get _ _ _ _ k El).
+  - apply andb_true_iff in Hp. destruct Hp as [Hp1 Hp2].
+    destruct (load c sc false) as [c1|] eqn:El; [|discriminate].
+    rewrite (IH _ _ k Hp2 H). unfold chain_of at 1. rewrite (load_get _ _ _ _ k El).
+    destruct (plain_last_eff (s_stmts sc) k Hp1) as [He Hd]. rewrite He.
     destruct (last_def (s_stmts sc) k) as [d|]; simpl.
-    + unfold chain_of. destruct (ctx_get c k); simpl; rewrite <- ?app_assoc; reflexivity.
+    + rewrite (Hd d eq_refl). unfold chain_of, old_members. rewrite <- app_assoc. reflexivity.
     + unfold chain_of. reflexivity.
 Qed.
 
@@ -445,6 +632,30 @@ Theorem register_get c name st d k :
   ctx_get (register c name st d) k =
   if str_eqb k (mkkey name (reg_arity st d)) then Some [d] else ctx_get c k.
 Proof. unfold register. apply ctx_get_set. Qed.
+
+(* ---- scripts that bind other things than functions *)
+
+(* a key bound to a constant, or a chain with a constant in it: every call that resolves to it
+   raises - after the facts, before any definition answers (call_phase) *)
+Lemma params_ok_const n z : params_ok n (mkConst z) = false.
+Proof. reflexivity. Qed.
+
+(* `k = None` under overwrite: the key stays BOUND (to None): nothing to call, and the variadic
+   registration of the same name is not consulted any more *)
+Theorem load_none_hides_variadic c sc c' name n :
+  load c sc true = Some c' -> last_eff (s_stmts sc) (mkkey name (AFix n)) = Some (Some VNone) ->
+  ctx_get c (mkkey name (AFix n)) <> None -> ctx_get c (mkkey name (AFix n)) <> Some [] ->
+  resolve c' name n = Some [].
+Proof.
+  intros H Hl Hb Hne. unfold resolve. rewrite (load_get _ _ _ _ _ H), Hl.
+  unfold ctx_get in *. destruct (ctx_val c (mkkey name (AFix n))) as [[|d|ds]|]; simpl in *; try reflexivity; congruence.
+Qed.
+
+(* `k = None` for a key that is not bound: the load does not bind it *)
+Theorem load_none_unbound c sc ow c' k :
+  load c sc ow = Some c' -> last_eff (s_stmts sc) k = Some (Some VNone) -> ctx_val c k = None ->
+  ctx_val c' k = None.
+Proof. intros H Hl Hc. rewrite (load_val _ _ _ _ k H), Hl, Hc. reflexivity. Qed.
 
 (* ------------------------------------------------------------------ the fact store *)
 
@@ -535,4 +746,27 @@ Proof.
   destruct (match_fact_fresh f args s (eq_sym Hf) Hnd Hfree) as [s' [Hm Hs']].
   rewrite Hm. cbn [app map]. rewrite IH. f_equal.
   apply map_lookup_eq; [symmetry; exact Hf | exact Hs'].
+Qed.
+
+(* a key bound to something that is not callable (a module constant), directly or inside a chain:
+   every call that resolves to it raises, after the facts and before any definition answers *)
+Theorem noncallable_member_raises f name args nx s e ds d z :
+  reserved name = false ->
+  resolve (e_ctx e) name (length args) = Some ds -> In d ds -> d_const d = Some z ->
+  drain e (query_gen (S f) name args nx s e) =
+  (map (prune nx) (fact_answers (db_get (e_db e) (name, length args)) args s), Raise).
+Proof.
+  intros Hres Hr Hin Hc. rewrite lookup_spec by exact Hres. cbv zeta.
+  assert (Hds : match ctx_get (e_ctx e) (mkkey name (AFix (length args))) with
+                | Some ds0 => ds0
+                | None => match ctx_get (e_ctx e) (mkkey name AVar) with Some ds0 => ds0 | None => [] end
+                end = ds).
+  { unfold resolve in Hr. destruct (ctx_get (e_ctx e) (mkkey name (AFix (length args)))).
+    - inversion Hr. reflexivity.
+    - rewrite Hr. reflexivity. }
+  rewrite Hds.
+  assert (Hf : forallb (params_ok (length args)) ds = false).
+  { destruct (forallb (params_ok (length args)) ds) eqn:E; [|reflexivity].
+    rewrite forallb_forall in E. specialize (E d Hin). unfold params_ok in E. rewrite Hc in E. discriminate. }
+  rewrite Hf. reflexivity.
 Qed.
